@@ -17,7 +17,7 @@ func init() {
 		Level:     "model_checking",
 		Technique: "bounded exhaustive exploration of error-container operation sequences and of table-building histories with failing callbacks, on the real code, compared after every step with a reference model of who holds which error",
 		Rule: "family container: all sequences of {AddError(e), AddError(nil), AddErrorList(l) for l in nil,[],[e],[nil],[e,nil],[nil,e],[e,nil,e'], each followed or not by mutation of l} to depth 4 (thorough 6) on a constructed, a zero-value and a nil container; " +
-			"family routing: histories build(<=2 ops) ; register a failing callback on any supported (owner kind x time x target) and/or record a direct error on the table/a row ; build(<=2 ops) ; (thorough: a late registration if none was made before) ; 0-2 render passes (InvokeRenderCallbacks or a CSV render) - " +
+			"family routing: histories build(<=2 ops) ; register a failing callback (returning a serial-carrying error or the zero value of a value-type error) on any supported (owner kind x time x target) and/or record a direct error on the table/a row ; build(<=2 ops) ; (thorough: a late registration if none was made before) ; 0-2 render passes (InvokeRenderCallbacks or a CSV render) - " +
 			"build ops include rows built detached then attached, Row.Add before and after attach, separators and adding a cell to a separator; the oracle runs after every step; " +
 			"non-trivial = a history in which at least one error was raised; distinct by reference state (who holds which serials)",
 		Assumptions: []string{"relative order between errors of different sources is not asserted", "errors held by rows that are never attached are only required to be reported by that row",
@@ -27,12 +27,27 @@ func init() {
 	})
 }
 
+// zeroErr is an error whose only value is the zero value of its (non-pointer) type.
+type zeroErr struct{}
+
+func (zeroErr) Error() string { return "zero-valued error" }
+
 type serialErr struct {
 	serial int
 	source string
 }
 
 func (e serialErr) Error() string { return fmt.Sprintf("E%d[%s]", e.serial, e.source) }
+
+func c11CountZero(errs []error) int {
+	n := 0
+	for _, e := range errs {
+		if _, ok := e.(zeroErr); ok {
+			n++
+		}
+	}
+	return n
+}
 
 func c11ViewErrors(x *X, errs []error, tags []string, who string) (serials []int, others int) {
 	x.Clause("C11.nil_or_nonempty")
@@ -46,7 +61,7 @@ func c11ViewErrors(x *X, errs []error, tags []string, who string) (serials []int
 		}
 		if se, ok := e.(serialErr); ok {
 			serials = append(serials, se.serial)
-		} else {
+		} else if _, isZero := e.(zeroErr); !isZero {
 			others++
 		}
 	}
@@ -175,7 +190,7 @@ func runC11(x *X) {
 	cfg := &BuildCfg{Counts: []int{0, 1, 2}, MaxDetached: 1, AllowSepAdd: true}
 	x.Explore("routing", ExploreOpts{ShardDepth: 3, Bound: fmt.Sprintf("build<=2 ; registration(%d combos)/direct error ; build<=2 ; optional 2nd registration ; 0-2 render passes", len(regs))}, func(c *Chooser) {
 		b := NewBuilder(cfg)
-		st := &c11State{x: x, c: c, b: b, pending: map[*RefRow][]int{}}
+		st := &c11State{x: x, c: c, b: b, pending: map[*RefRow][]int{}, pendingZero: map[*RefRow]int{}}
 		buildPhase := func(max int) bool {
 			for i := 0; i < max; i++ {
 				op := b.Step(c, true)
@@ -235,15 +250,17 @@ func runC11(x *X) {
 }
 
 type c11State struct {
-	x       *X
-	c       *Chooser
-	b       *Builder
-	serial  int
-	table   []int             // serials that must be in the table's list
-	pending map[*RefRow][]int // serials held by detached rows
-	nreg    int
-	regDesc []string
-	extra   []string
+	x           *X
+	c           *Chooser
+	b           *Builder
+	serial      int
+	table       []int             // serials that must be in the table's list
+	pending     map[*RefRow][]int // serials held by detached rows
+	nreg        int
+	regDesc     []string
+	extra       []string
+	zeroTable   int
+	pendingZero map[*RefRow]int
 }
 
 func (s *c11State) tags() []string {
@@ -286,14 +303,31 @@ func appendUnique(l []string, s string) []string {
 type c11CB struct {
 	s    *c11State
 	name string
+	zero bool // return the zero value of a value-type error instead of a serial-carrying one
 }
 
 func (cb *c11CB) UpdateProperties(po tabular.PropertyOwner) error {
+	if cb.zero {
+		s := cb.s
+		if r := s.b.CurDetached; r != nil && !r.Attached {
+			s.pendingZero[r]++
+		} else {
+			s.zeroTable++
+		}
+		s.extra = appendUnique(s.extra, "zero_valued_error_value")
+		return zeroErr{}
+	}
 	return cb.s.raise(cb.name)
 }
 
 // afterBuildOp moves pending errors of rows that have just been attached into the table's expectation.
 func (s *c11State) afterBuildOp(op string) {
+	for r, n := range s.pendingZero {
+		if r.Attached && n > 0 {
+			s.zeroTable += n
+			delete(s.pendingZero, r)
+		}
+	}
 	for r, p := range s.pending {
 		if r.Attached && len(p) > 0 {
 			// errors recorded before the row joined: now the table's; they keep their own order.
@@ -390,7 +424,11 @@ func (s *c11State) register(owner string, tg int, target string, wn int, when st
 	}
 	name := fmt.Sprintf("cb%d:%s/%s/%s", s.nreg+1, owner, when, target)
 	c.Logf("t.RegisterPropertyCallback(%s, %s, %s, failing %s)", owner, when, target, name)
-	err := registerCB(b.T, po, wn, tg, &c11CB{s, name})
+	zero := c.Bool()
+	if zero {
+		name += "/zero-valued-error"
+	}
+	err := registerCB(b.T, po, wn, tg, &c11CB{s, name, zero})
 	if err != nil {
 		c.Logf("  -> refused: %v", err)
 		return
@@ -426,6 +464,15 @@ func (s *c11State) check(when string) bool {
 	}
 	if len(got) != len(s.table) {
 		x.Fail("C11.reported_once", append(tags, "unexpected"), "%s: table.Errors()=%v has serials %v, expected exactly %v", when, errs, got, s.table)
+		return false
+	}
+	x.Clause("C11.reported_once")
+	if z := c11CountZero(errs); z != s.zeroTable {
+		what := "lost"
+		if z > s.zeroTable {
+			what = "duplicated"
+		}
+		x.Fail("C11.reported_once", append(tags, what), "%s: callbacks returned %d zero-valued errors (a value-type error whose value is the zero value) that belong to the table, table.Errors() holds %d: %v; registrations %v", when, s.zeroTable, z, errs, s.regDesc)
 		return false
 	}
 	x.Clause("C11.misuse_reported")
